@@ -615,3 +615,91 @@ Proof.
     - subst x. exact (Nb Hx). }
   apply G; [exact D|]. intros x _ [].
 Qed.
+
+(** ------------------------------------------------------------ membership lists in merge order *)
+Definition lists_of (g : graph) (Fl Ml : Z -> list pyval) : Prop :=
+  forall k a, nattrs g k = Some a ->
+    aget (S "fragid") a = Some (VList (Fl k)) /\ aget (S "mapping") a = Some (VList (Ml k)).
+
+Lemma squash_fold_lists alive l : forall gi sq Fl Ml g' sq',
+  wf_graph gi -> fwd sq -> lists_of gi Fl Ml -> hnum_g gi ->
+  (forall k, has_node gi k = zmem k alive && negb (zmem k (sq_keys sq))) ->
+  (forall kv, In kv sq -> zmem (snd kv) alive = true) ->
+  (forall e, In e l -> zmem (fst (fst e)) alive = true /\ zmem (snd (fst e)) alive = true) ->
+  Hydrogens.fold_res squash_step l (gi, sq) = Ok (g', sq') ->
+  lists_of g' (merged_lists Fl (squash_plan sq (bangs l))) (merged_lists Ml (squash_plan sq (bangs l))).
+Proof.
+  induction l as [|[[a b] bond] l IH]; intros gi sq Fl Ml g' sq' W F T HN Hal Hv Hl H.
+  - cbn in H. inversion H; subst. exact T.
+  - assert (Hl' : forall e, In e l -> zmem (fst (fst e)) alive = true /\ zmem (snd (fst e)) alive = true)
+      by (intros e He; apply Hl; now right).
+    destruct (Hl (a, b, bond) (or_introl eq_refl)) as [Aa Ab]. cbn [fst snd] in Aa, Ab.
+    cbn [Hydrogens.fold_res] in H.
+    assert (Eb : bangs ((a, b, bond) :: l) =
+                 match starts_squash bond with Ok true => (a, b) :: bangs l | _ => bangs l end).
+    { unfold bangs. cbn [filter]. unfold item_is_bang at 1. cbn [snd]. destruct (starts_squash bond) as [[|]|]; reflexivity. }
+    rewrite Eb. clear Eb.
+    destruct (starts_squash bond) as [[|]|] eqn:Es.
+    + cbn [squash_plan]. set (keep := sq_pass sq a) in *. set (rm := sq_pass sq b) in *.
+      assert (Rk : sq_root (sq_fuel sq) sq a = Ok keep) by (apply sq_root_pass; [assumption|unfold sq_fuel; lia]).
+      assert (Rr : sq_root (sq_fuel sq) sq b = Ok rm) by (apply sq_root_pass; [assumption|unfold sq_fuel; lia]).
+      assert (Ak : zmem keep alive = true) by (apply (pass_pred (fun z => zmem z alive = true)); assumption).
+      assert (Ar : zmem rm alive = true) by (apply (pass_pred (fun z => zmem z alive = true)); assumption).
+      assert (Nk : zmem keep (sq_keys sq) = false)
+        by (apply not_true_iff_false; rewrite zmem_In; apply pass_not_key; assumption).
+      assert (Nr : zmem rm (sq_keys sq) = false)
+        by (apply not_true_iff_false; rewrite zmem_In; apply pass_not_key; assumption).
+      destruct (Z.eqb_spec keep rm) as [E|Hne].
+      * assert (St : squash_step (gi, sq) (a, b, bond) = Ok (gi, sq)).
+        { unfold squash_step. rewrite Es. cbn [bind negb]. rewrite Rk, Rr. cbn [bind]. rewrite E, Z.eqb_refl. reflexivity. }
+        rewrite St in H. cbn [bind] in H. exact (IH gi sq Fl Ml g' sq' W F T HN Hal Hv Hl' H).
+      * assert (Hk : has_node gi keep = true) by (rewrite Hal, Ak, Nk; reflexivity).
+        assert (Hr : has_node gi rm = true) by (rewrite Hal, Ar, Nr; reflexivity).
+        assert (exists au, nattrs gi keep = Some au) as [au Hu]
+          by (apply has_node_gfind in Hk as [n Hn]; unfold nattrs; rewrite Hn; cbn; eauto).
+        assert (exists av, nattrs gi rm = Some av) as [av Hv']
+          by (apply has_node_gfind in Hr as [n Hn]; unfold nattrs; rewrite Hn; cbn; eauto).
+        destruct (T keep au Hu) as [Fu Mu]. destruct (T rm av Hv') as [Fv Mv].
+        destruct (squash_membership gi keep rm au av _ _ _ _ W Hne Hu Hv' Fu Fv Mu Mv (HN keep au Hu) (HN rm av Hv') sq a b bond Es Rk Rr)
+          as (g2 & St & K2 & E2 & (A & NA & FA & MA & _ & _ & HA) & O2).
+        rewrite St in H. cbn [bind] in H.
+        assert (W2 : wf_graph g2) by (exact (wf_contracted gi keep rm g2 W Hne Hk Hr K2 E2)).
+        assert (Fr : ~ In rm (sq_keys sq)) by (rewrite <- zmem_In, Nr; discriminate).
+        assert (Fk : ~ In keep (sq_keys sq)) by (rewrite <- zmem_In, Nk; discriminate).
+        rewrite (sq_set_fresh rm keep sq Fr) in H.
+        assert (Gone : forall ai, nattrs g2 rm = Some ai -> False).
+        { intros ai Gi. assert (X : has_node g2 rm = true).
+          { unfold nattrs in Gi. apply has_node_gfind. destruct (gfind rm g2); [eauto|discriminate]. }
+          apply has_node_keys in X. rewrite K2 in X. apply filter_In in X as [_ X]. rewrite Z.eqb_refl in X. discriminate. }
+        apply (IH g2 (sq ++ [(rm, keep)]) _ _ g' sq' W2); try assumption.
+        -- apply fwd_snoc; auto.
+        -- intros i ai Gi. destruct (Z.eqb_spec i keep) as [-> |Ni].
+           ++ rewrite NA in Gi. inversion Gi; subst ai. auto.
+           ++ destruct (Z.eq_dec i rm) as [-> |Nr']; [exfalso; eauto|]. rewrite O2 in Gi by assumption. exact (T i ai Gi).
+        -- intros i ai Gi. destruct (Z.eq_dec i keep) as [-> |Ni].
+           ++ rewrite NA in Gi. inversion Gi; subst ai. exact HA.
+           ++ destruct (Z.eq_dec i rm) as [-> |Nr']; [exfalso; eauto|]. rewrite O2 in Gi by assumption. exact (HN i ai Gi).
+        -- intros k. apply Bool.eq_iff_eq_true.
+           rewrite has_node_keys, K2, filter_In, <- has_node_keys, Hal. unfold sq_keys. rewrite map_app. cbn [map fst].
+           unfold zmem. rewrite existsb_app. cbn [existsb]. fold (zmem k (map fst sq)). fold (sq_keys sq).
+           rewrite orb_false_r, negb_orb, !andb_true_iff, !negb_true_iff. tauto.
+        -- intros kv Hin. apply in_app_or in Hin as [Hin|[<-|[]]]; [auto|exact Ak].
+    + assert (St : squash_step (gi, sq) (a, b, bond) = Ok (gi, sq)) by (unfold squash_step; rewrite Es; reflexivity).
+      rewrite St in H. cbn [bind] in H. exact (IH gi sq Fl Ml g' sq' W F T HN Hal Hv Hl' H).
+    + unfold squash_step in H. rewrite Es in H. cbn [bind] in H. discriminate.
+Qed.
+
+(** [squash_memberships]: the surviving atom of every class records the coarse nodes (fragid) and template
+    atoms (mapping) of ALL members of the class: its own list followed by the lists of the atoms merged into
+    it, in merge order ([merged_lists] over the plan); atoms that are not merged keep their lists *)
+Theorem squash_memberships g g' Fl Ml : wf_graph g -> lists_of g Fl Ml -> hnum_g g -> squash_atoms g = Ok g' ->
+  lists_of g' (merged_lists Fl (squash_plan [] (bang_items g))) (merged_lists Ml (squash_plan [] (bang_items g))).
+Proof.
+  intros W T HN H. unfold squash_atoms in H.
+  destruct (Hydrogens.fold_res squash_step (edge_attr_items g squash_edge_attr) (g, [])) as [[g2 sq2]|] eqn:Fd; cbn [bind fst] in H; [|discriminate].
+  inversion H; subst g2. clear H.
+  assert (Hal : forall k, has_node g k = zmem k (node_keys g) && negb (zmem k (sq_keys []))).
+  { intros k. cbn. rewrite andb_true_r. apply Bool.eq_iff_eq_true. rewrite has_node_keys, zmem_In. tauto. }
+  apply (squash_fold_lists (node_keys g) (edge_attr_items g squash_edge_attr) g [] Fl Ml g' sq2 W I T HN Hal); [intros kv []| |exact Fd].
+  intros e He. destruct (items_are_edges g _ e W He) as [A B]. rewrite !zmem_In, <- !has_node_keys. auto.
+Qed.
